@@ -1145,6 +1145,13 @@ def rule_dep(ctx):
     return dep_insts(ctx, "C04", ["reamber.bms.BMSMap.BMSMap.read"], skip_groups=())
 
 
+def rule_r11(ctx) -> List[R.Inst]:
+    """measure-length channel (02): value * K on the way in, metronome / K on the way out, one K (the rule lives with the writer,
+    C05.R12; the reader's half is an obligation of this property in its own right)"""
+    from . import c05
+    return c05.rule_r12(ctx, rid="C04.R11")
+
+
 SPECS = [
     RuleSpec("C04.R1", rule_r1, 5, "A10", "five channel layouts: injective, contiguous, roles on 02/03/08, equal to the format table"),
     RuleSpec("C04.R2", rule_r2, 6, "A7", "role names used by reader and writer are values of _HEADER"),
@@ -1156,6 +1163,7 @@ SPECS = [
     RuleSpec("C04.R9", rule_r9, 1, "A8", "every data line reaches the note reader (no keyed overwrite)"),
     RuleSpec("C04.R10", rule_r10, 2, "A8", "read_file / read forward the channel layout they accept"),
     RuleSpec("C04.R8", rule_r8, 9, "A5", "parallel sequences: column, sample, head and tail reach the right constructor keyword"),
+    RuleSpec("C04.R11", rule_r11, 1, "A1", "measure-length channel: read value * K, the inverse of what the writer emits"),
     RuleSpec("C04.D", rule_dep, 1, "M0", "rules of the shared code (timing engine, list classes, stacker) that the operations of this property reach"),
 ]
 
